@@ -109,19 +109,50 @@ for nd in ((2, 3) if mode == 'quick' else (2, 3, 5)):
     _, frac, tried = brute(e.contains, lo, hi, N, np.random.default_rng(3))
     volume('{}d/Ellipsoid'.format(nd), e.log_v, [], frac, tried, lo, hi)
     # ---- union of overlapping members
-    for cls in (Ellipsoid, UnitCubeEllipsoidMixture):
+    for cls, near_face in ((Ellipsoid, False), (UnitCubeEllipsoidMixture,
+                                                False), (Ellipsoid, True)):
         pts = two_blobs(nd)
+        if near_face:
+            # members cut by the faces of the unit cube
+            pts = np.clip(pts - 0.38, 0.0005, 0.9995)
         u = Union.compute(pts, enlarge_per_dim=1.15, n_points_min=60,
                           bound_class=cls, rng=np.random.default_rng(4))
         while u.split():
             pass
-        tag = '{}d/Union[{}x{}]'.format(nd, len(u.bounds), cls.__name__)
+        tag = '{}d/Union[{}x{}{}]'.format(nd, len(u.bounds), cls.__name__,
+                                         ',cut by the cube' if near_face else '')
         s = u.sample(N)
         lo, hi = np.zeros(nd), np.ones(nd)
         ref, frac, tried = brute(u.contains, lo, hi, N,
                                  np.random.default_rng(5))
         two_sample(tag, s, ref, s.min(axis=0) - 1e-9, s.max(axis=0) + 1e-9, g)
         volume(tag, u.log_v, [(u.n_sample, u.n_reject)], frac, tried, lo, hi)
+# ---- a member with a tiny share of the volume must still get its share
+for ratio in (0.03, 0.06):
+    big = rg.normal(size=(500, 2)) * 0.08 + 0.35
+    small = rg.normal(size=(500, 2)) * 0.08 * ratio + 0.85
+    u = Union.compute(np.clip(np.vstack([big, small]), 0.001, 0.999),
+                      enlarge_per_dim=1.1, n_points_min=100,
+                      bound_class=Ellipsoid, rng=np.random.default_rng(8))
+    u.split()
+    if len(u.bounds) == 2:
+        lv = np.array([b.log_v for b in u.bounds])
+        k = int(np.argmin(lv))
+        probe = u.bounds[k].sample(200)
+        if not np.any(u.bounds[1 - k].contains(probe)):     # disjoint members
+            s = u.sample(N)
+            share = float(np.exp(lv[k] - np.logaddexp(lv[0], lv[1])))
+            got = int(np.sum(u.bounds[k].contains(s)))
+            pv = stats.binomtest(got, N, share).pvalue
+            seen.append(dict(case='small member, share {:.2e}'.format(share),
+                             test='share', p=float(pv), got=got,
+                             expected=share * N))
+            if pv < P_ALARM:
+                bad.append(dict(case='Union[2xEllipsoid] with a member '
+                                'holding {:.2e} of the volume'.format(share),
+                                what='{} of {} samples in the small member, '
+                                'expected {:.1f} (p={:.1e})'.format(
+                                    got, N, share * N, pv)))
 # ---- nautilus bound with a network
 nd = 2
 pts = rg.random((1200, nd)) * 0.5 + 0.25
